@@ -927,25 +927,26 @@ pub fn ref_sct(b: &[u8]) -> Ref {
 }
 
 /// `parse_ct_signed_certificate_timestamp_list`. Also returns, for the "never yields an SCT"
-/// clause, the number of SCTs that may come out at most when the list is malformed.
-pub fn ref_sct_list(b: &[u8]) -> (Ref, usize) {
+/// clause, the number of SCTs that may come out at most when an entry overshoots the list or is
+/// cut by its own length (`None`: no bound can be stated, e.g. trailing bytes inside an entry).
+pub fn ref_sct_list(b: &[u8]) -> (Ref, Option<usize>) {
     let mut r = Rd::new(b);
-    let Some(l) = r.u16() else { return (Ref::Reject("SCT list length cut"), 0) };
-    let Some(mut list) = r.sub(l as usize) else { return (Ref::Reject("SCT list overshoots the input"), 0) };
+    let Some(l) = r.u16() else { return (Ref::Reject("SCT list length cut"), Some(0)) };
+    let Some(mut list) = r.sub(l as usize) else { return (Ref::Reject("SCT list overshoots the input"), Some(0)) };
     let mut v = Vec::new();
     while !list.is_empty() {
         let mut t = list;
-        let Some(el) = t.u16() else { return (Ref::Unspec("stray byte in the SCT list"), v.len()) };
-        let Some(e) = t.sub(el as usize) else { return (Ref::Unspec("SCT entry overshoots the list"), v.len()) };
+        let Some(el) = t.u16() else { return (Ref::Unspec("stray byte in the SCT list"), Some(v.len())) };
+        let Some(e) = t.sub(el as usize) else { return (Ref::Unspec("SCT entry overshoots the list"), Some(v.len())) };
         match sct_content(e) {
             BM(x) => {
                 v.push(x);
                 list = t;
             }
-            BR(_) => return (Ref::Unspec("malformed SCT entry inside the list"), v.len()),
-            BU(w) => return (Ref::Unspec(w), v.len()),
+            BR(_) => return (Ref::Unspec("malformed SCT entry inside the list"), Some(v.len())),
+            BU(w) => return (Ref::Unspec(w), None),
         }
     }
     let k = v.len();
-    (Ref::Must(V::L(v), r.off), k)
+    (Ref::Must(V::L(v), r.off), Some(k))
 }
